@@ -341,8 +341,14 @@ def _r4_c(prog: Program, res: Result) -> None:
                 params = set(fn.all_params)
                 bound_params = [k for k in ("depth", "visited", "seen", "_depth", "_seen") if k in params]
                 passed = any(isinstance(kw.arg, str) and kw.arg in bound_params for kw in c.keywords)
-                tested = any(isinstance(n, ast.If) and any(isinstance(x, ast.Name) and x.id in bound_params for x in ast.walk(n.test))
-                             and n.body and isinstance(n.body[-1], (ast.Return, ast.Raise)) for n in walk_own(fn.node))
+                def _bound_test(t):
+                    if isinstance(t, ast.BoolOp):
+                        return any(_bound_test(v) for v in t.values)
+                    return isinstance(t, ast.Compare) and len(t.ops) == 1 and (
+                        (isinstance(t.left, ast.Name) and t.left.id in bound_params and isinstance(t.ops[0], (ast.Gt, ast.GtE, ast.Eq)))
+                        or (isinstance(t.comparators[0], ast.Name) and t.comparators[0].id in bound_params and isinstance(t.ops[0], (ast.In, ast.Lt, ast.LtE))))
+                tested = any(isinstance(n, ast.If) and _bound_test(n.test) and n.body and isinstance(n.body[-1], (ast.Return, ast.Raise))
+                             for n in walk_own(fn.node))
                 bounded = bool(bound_params) and passed and tested
                 res.decide(bounded, "R4.c", fn.loc(c), fn.fq, short(c, 70),
                            "recursion carries a depth / visited bound" if bounded else
